@@ -229,7 +229,16 @@ impl<'a> Fields<'a> {
                     let resolve_fut = Box::pin({
                         let ctx = ctx.clone();
                         async move {
-                            let res = resolve_field_with_hooks(&ctx, root, field).await;
+                            let res =
+                                resolve_field_with_hooks(&ctx, root, field)
+                                    .await
+                                    .map_err(|err| {
+                                        if err.path.is_empty() {
+                                            ctx.with_field(field).set_error_path(err)
+                                        } else {
+                                            err
+                                        }
+                                    });
                             match res {
                                 // A field error is recorded and turns the nearest nullable
                                 // position into null: the field itself if its type is nullable.
